@@ -4,6 +4,7 @@
    at those boundaries (splitNonUniform(boundaries): partition b holds b <= c < next boundary, elements below the first
    boundary and empty partitions are dropped); then r1 (upper) and r0 (lower) are iterated.  Definitions only. *)
 From Coq Require Import ZArith List Bool Lia String Sorted.
+Require TV.Model.Rt.
 Require Import TV.Model.Nest TV.Model.NestPart.
 Import ListNotations.
 Open Scope Z_scope.
@@ -200,3 +201,20 @@ Fixpoint sum_except (r1 : rank) (p : point) (cs : list contrib) : Z :=
   | [] => 0
   | qv :: cs' => if matches_except r1 p (fst qv) then snd qv + sum_except r1 p cs' else sum_except r1 p cs'
   end.
+
+(* ---------- a shape split beneath an occupancy split ---------- *)
+(* a shape split beneath an occupancy split: after Lo, r is occupancy-split into (r2, rx) and rx (now the second rank of
+   the split tensors) is shape-split by step s into (r1, r0); then Li *)
+Definition occ_then_shape (r r2 rx : rank) (n k : nat) (r1 r0 : rank) (s : Z) (tm : term) : term :=
+  map (part_tstate rx r1 r0 s) (occ_split r r2 rx n k tm).
+Definition occ_shape_state_ok (r r2 rx : rank) (n k : nat) (r1 r0 : rank) (s : Z) (Li : list rank) (st : list term) : Prop :=
+  (forall tm, In tm st -> term_ok r tm /\ leader_ok r k tm /\ forall t, In t tm -> ~ In r2 (rem t) /\ ~ In rx (rem t)) /\
+  wf Li (map (occ_then_shape r r2 rx n k r1 r0 s) st).
+
+(* ---------- the embedding of Nest tries into the tries of the modelled runtime (Model/Rt.v) ---------- *)
+Fixpoint to_rt (t : trie) : Rt.trie :=
+  match t with
+  | Leaf v => Rt.TLeaf (Rt.VInt v)
+  | Node l => Rt.TNode (map (fun ct : coord * trie => (Rt.VInt (fst ct), to_rt (snd ct))) l)
+  end.
+Definition to_rt_ct (ct : coord * trie) : Rt.value * Rt.trie := (Rt.VInt (fst ct), to_rt (snd ct)).
